@@ -33,9 +33,11 @@ class _NS:
         self.__dict__.update(kw)
 
 
-SAFE_MODULES = {'re': _re_module, 'operator': _operator_module, 'itertools': _itertools_module, 'collections': _collections_module,
+import colorsys as _colorsys_module
+
+SAFE_MODULES = {'colorsys': _colorsys_module, 're': _re_module, 'operator': _operator_module, 'itertools': _itertools_module, 'collections': _collections_module,
                 'os': _NS(path=_posixpath_module), 'urllib': _NS(parse=_urlparse_module, request=_NS(pathname2url=_urlrequest_module.pathname2url))}
-_SAFE_VALUES = (_re_module, _operator_module, _itertools_module, _posixpath_module, _urlparse_module, _collections_module)
+_SAFE_VALUES = (_colorsys_module, _re_module, _operator_module, _itertools_module, _posixpath_module, _urlparse_module, _collections_module)
 
 
 class _Return(Exception):
@@ -714,8 +716,8 @@ class Evaluator:
                     raise _Raise('AttributeError')
             if isinstance(v, (str, bytes, list, dict, set, frozenset, tuple)) and hasattr(v, e.attr):
                 return getattr(v, e.attr)  # a bound method of a built-in value, used as a callable
-            if v is None or isinstance(v, (bool, int, float)):
-                raise _Raise('AttributeError')  # None (and numbers) have none of the attributes the code asks for
+            if v is None or isinstance(v, (bool, int, float, str, bytes, list, tuple, dict, set, frozenset)):
+                raise _Raise('AttributeError')  # None, numbers and built-in containers have none of the attributes the code asks for
             raise AnalysisError(f'unsupported attribute access {text(e)}')
         if isinstance(e, ast.Call):
             try:
